@@ -172,10 +172,14 @@ pub fn f2(tier: Tier) -> Vec<SemCase> {
             v.push(case_from_text("F2.nest", &main_with(d, FUNCS_FG, &format!("r = 0; {}", body)), &small, vec!["nested"], 300));
         }
         // switch: all arrangements of <= 3 case groups
-        let scrut: Vec<&str> = if quick { vec!["a", "X"] } else { vec!["a", "X", "a + 1", "a & 3", "Y", "arr[X]"] };
-        let labels = [0, 1, 2, 5, 255];
+        let scrut: Vec<&str> = if quick { vec!["a", "X", "a & 3"] } else { vec!["a", "X", "a + 1", "a & 3", "Y", "arr[X]"] };
+        let label_orders: [[i32; 5]; 3] = [[0, 1, 2, 5, 255], [1, 0, 2, 5, 255], [5, 2, 0, 1, 255]];
         for sc in &scrut {
+          for labels in &label_orders {
             for n in 1..=3usize {
+                if n == 1 && labels[0] != 0 && labels[0] != 1 {
+                    continue;
+                }
                 // label multiplicity per group (1 or 2), body kind per group (0=assign+break, 1=fallthrough assign), default kind 0..3
                 let combos = 1usize << n;
                 for lm in 0..combos {
@@ -210,11 +214,16 @@ pub fn f2(tier: Tier) -> Vec<SemCase> {
                     }
                 }
             }
+          }
         }
         // switch inside loop with continue / break binding
         for body in [
             "r = 0; for (X = 0; X < 4; X++) { switch (X) { case 1: continue; case 2: r += 10; break; default: r++; } c++; }",
             "r = 0; for (X = 0; X < 4; X++) { switch (a) { case 0: r++; break; case 1: r += 2; } if (X == 2) break; }",
+            "r = 0; X = 0; do { switch (X) { case 0: X++; continue; case 2: r += 10; break; default: r++; } X++; c++; } while (X < 5);",
+            "r = 0; X = 0; while (X < 5) { X++; switch (X) { case 1: continue; case 3: r += 10; break; default: r++; } c++; }",
+            "r = 0; X = 0; do { X++; if (X == 2) continue; r++; } while (X != 4);",
+            "r = 0; for (X = 0; X < 3; X++) { Y = 0; do { Y++; switch (Y) { case 1: continue; default: r++; } } while (Y < 3); }",
         ] {
             v.push(case_from_text("F2.switchloop", &main_with(d, FUNCS_FG, body), &small, vec!["switch", "for"], 300));
         }
@@ -355,7 +364,7 @@ pub fn f3(tier: Tier, with_inline_subsets: bool) -> Vec<(SemCase, Vec<String>, u
 // ---------------------------------------------------------------------------------------
 // F4.seq
 
-pub const SEQ_ALPHABET: [&str; 46] = [
+pub const SEQ_ALPHABET: [&str; 55] = [
     "a = 0;",
     "a = 1;",
     "a = b;",
@@ -392,6 +401,15 @@ pub const SEQ_ALPHABET: [&str; 46] = [
     "if (X == 1) r = 3;",
     "if (Y != 2) r = 4;",
     "f();",
+    "X = s;",
+    "s <<= 1;",
+    "s >>= 1;",
+    "Y = s >> 8;",
+    "a >>= 1;",
+    "arr[1] = Y;",
+    "b = arr[X];",
+    "if (X == 1) X++;",
+    "s--;",
     // the following are not C-observable (excluded from reference comparison, kept for the differential checks)
     "load(a);",
     "store(a);",
@@ -405,7 +423,7 @@ pub const SEQ_ALPHABET: [&str; 46] = [
     "asm(\"NOP\", 1);",
 ];
 
-pub const SEQ_C_OBSERVABLE: usize = 36;
+pub const SEQ_C_OBSERVABLE: usize = 45;
 pub const SEQ_DECL: &str = "unsigned char a, b, c, r; short s; unsigned char arr[4]; char *p; char *const REG = 0x3e;\nvoid f() { c = c + 1; }\n";
 
 pub fn f4_indices(tier: Tier, alphabet_len: usize) -> Vec<Vec<usize>> {
@@ -419,13 +437,26 @@ pub fn f4_indices(tier: Tier, alphabet_len: usize) -> Vec<Vec<usize>> {
         }
     }
     let core: Vec<usize> = match tier {
-        Tier::Quick => (0..alphabet_len).filter(|k| [0, 2, 4, 5, 8, 10, 12, 15, 16, 21, 24, 25, 26, 28, 29, 31, 32, 33, 35, 37, 39, 41, 43, 44].contains(k)).collect(),
+        Tier::Quick => (0..alphabet_len).filter(|k| [0, 2, 4, 5, 8, 10, 12, 15, 16, 21, 24, 25, 26, 28, 29, 31, 32, 33, 35, 46, 48, 50, 52, 53].contains(k)).collect(),
         Tier::Thorough => (0..alphabet_len).collect(),
     };
     for i in &core {
         for j in &core {
             for k in &core {
                 v.push(vec![*i, *j, *k]);
+            }
+        }
+    }
+    if tier == Tier::Quick {
+        // the optimiser and the generator treat X and Y in separate (copied) code: a second core built around Y
+        let core_y: Vec<usize> = [2usize, 3, 6, 7, 9, 10, 11, 17, 18, 27, 30, 34, 36, 37, 38, 39, 40, 41, 42, 43, 44].iter().cloned().filter(|k| *k < alphabet_len).collect();
+        for i in &core_y {
+            for j in &core_y {
+                for k in &core_y {
+                    if !(core.contains(i) && core.contains(j) && core.contains(k)) {
+                        v.push(vec![*i, *j, *k]);
+                    }
+                }
             }
         }
     }
@@ -508,10 +539,11 @@ pub const F9_STMTS: [&str; 40] = [
     "r = arr[2];", "arr[X]++;", "arr[X] += a;", "s = 0x1234;", "s++;", "s--;", "s += a;", "s += t;", "s <<= 1;", "s >>= 1;", "r = s >> 8;", "r = s;", "if (s == t) r = 1;",
 ];
 
-pub const F9_STMTS2: [&str; 28] = [
+pub const F9_STMTS2: [&str; 34] = [
     "p++;", "p--;", "++p;", "--p;", "p = arr;", "p += 2;",
     "sarr[X] = s;", "s = sarr[X];", "sarr[Y] = s;", "s = sarr[Y];", "sarr[1] = t;", "sarr[X]++;", "s = sarr[Y] + 1;", "sarr[Y] += a;",
     "t = s;", "s = t + 1;", "s = a;", "s -= t;", "s &= 0xff;", "s |= t;", "if (s < t) r = 1; else r = 2;", "if (s) r = 1;", "r = g(a);", "h(a, b);", "load(a);", "store(a);", "a = arr[X] + b;", "arr[X] = arr[Y];",
+    "sarr[Y] <<= 1;", "sarr[X] >>= 1;", "sarr[X] <<= 1;", "X = a; a = 5; X = a;", "b = a; a = Y; r = a;", "Y = s; s = 3; Y = s;",
 ];
 
 /// (name, extra option, declaration text)
